@@ -276,24 +276,29 @@ Module Case.
 Fixpoint failing_idx (l : list bool) (i : nat) : list nat :=
   match l with [] => [] | b :: r => if b then failing_idx r (S i) else i :: failing_idx r (S i) end.
 
+(* a matrix of doubles as written by the harness: integer mantissas over the common denominator 2^k (exact) *)
+Definition raw := (list (list BinNums.Z) * BinNums.Z)%type.
+
 (* ---- stage (a): every solution matrix from the recorded oracle outputs, exact rationals.
    expected order: T P K X Ua Ta Pa Ka Xa J Ru Z H D Za *)
 Module A.
-Import LQ.
-Notation QO := LQ.Ops.
-Definition tol : bigQ := BigQ.Qq (BigZ.of_Z 1) (BigN.of_N 10000000).     (* 1e-7 * (1 + |x|) *)
+Import LF.
+Notation FO := LF.FOps.
+Definition tolinv : bigZ := BigZ.of_Z 10000000.       (* 1e-7 * (1 + |x|) *)
+Definition fm_of (r : raw) : fm := of_dyadic (fst r) (snd r).
 
-Definition solution_matrices (nb nf ne ny nw : nat) (S T Q Z C D Ta u F Gm Hc Jm : M) : list M :=
-  let p := @solve_transition QO nb nf ne S T Q Z C D in
-  let t := @detach QO nb nf ne p Ta u in
-  let s := @square_from_triangular QO nb nf ne t in
-  let m := @solve_measurement QO nb nf ny nw F Gm Hc Jm (tr_Ua t) in
+Definition solution_matrices (nb nf ne ny nw : nat) (S T Q Z C D Ta u F Gm Hc Jm : fm) : list fm :=
+  let p := @solve_transition FO nb nf ne S T Q Z C D in
+  let t := @detach FO nb nf ne p Ta u in
+  let s := @square_from_triangular FO nb nf ne t in
+  let m := @solve_measurement FO nb nf ny nw F Gm Hc Jm (tr_Ua t) in
   [sq_T s; sq_P s; sq_K s; sq_X s; tr_Ua t; tr_Ta t; tr_Ra t; tr_Ka t; tr_Xa t; tr_J t; tr_Ru t;
    ms_Z m; ms_H m; ms_D m; ms_Za m].
 
-Definition check_solution (nb nf ne ny nw : nat) (S T Q Z C D Ta u F Gm Hc Jm : M) (expected : list M) : list nat :=
-  failing_idx (map (fun p => mclose tol (fst p) (snd p))
-                   (combine (solution_matrices nb nf ne ny nw S T Q Z C D Ta u F Gm Hc Jm) expected)) 0.
+Definition check_solution (nb nf ne ny nw : nat) (S T Q Z C D Ta u F Gm Hc Jm : raw) (expected : list raw) : list nat :=
+  failing_idx (map (fun p => mclose tolinv (fst p) (fst (snd p)) (snd (snd p)))
+                   (combine (solution_matrices nb nf ne ny nw (fm_of S) (fm_of T) (fm_of Q) (fm_of Z) (fm_of C) (fm_of D)
+                               (fm_of Ta) (fm_of u) (fm_of F) (fm_of Gm) (fm_of Hc) (fm_of Jm)) expected)) 0.
 End A.
 
 (* ---- stage (b): expansion and a whole flat simulation from the solution matrices the implementation
@@ -302,10 +307,11 @@ Module B.
 Import LD.
 Notation DO := LD.Ops.
 Definition tol : dyad := (BigZ.one, (-23)%Z).          (* 2^-23 = 1.19e-7, times (1 + |x|) *)
+Definition dm_of (r : raw) : M := map (map (fun z => (BigZ.of_Z z, (- snd r)%Z))) (fst r).
 
 (* the forward expansion as reported by Solution.expand_square_solution(forward) *)
-Definition check_expansion (nb nf ne : nat) (P X J Ru : M) (forward : nat) (expected : list M) : bool :=
-  all2 (mclose tol) (@expansion DO nb nf ne P X J Ru forward) expected.
+Definition check_expansion (nb nf ne : nat) (P X J Ru : raw) (forward : nat) (expected : list raw) : bool :=
+  all2 (mclose tol) (@expansion DO nb nf ne (dm_of P) (dm_of X) (dm_of J) (dm_of Ru) forward) (map dm_of expected).
 
 (* expected: per period the transition vector xi_t (None = do not compare the cell) and y_t *)
 Definition close_opt (m : dyad) (e : option dyad) : bool := match e with Some x => close tol m x | None => true end.
@@ -313,10 +319,11 @@ Definition col_close (m : M) (e : list (option dyad)) : bool :=
   Nat.eqb (length m) (length e) && forallb (fun p => close_opt (hd d0 (fst p)) (snd p)) (combine m e).
 
 Definition check_simulation (nb nf ne ny nw : nat) (deviation : bool) (true_init : list bool)
-    (T P K X J Ru Z H D : M) (init_xi : M) (us vs ws : list M)
+    (T P K X J Ru Z H D : raw) (init_xi : raw) (us vs ws : list raw)
     (exp_xi exp_y : list (list (option dyad))) : list nat :=
-  let xis := @simulate_flat DO nb nf ne deviation (fun i => nth i true_init false) T P K X J Ru init_xi us vs in
-  let ys := @simulate_measurement DO nb ny nw deviation Z H D xis ws in
+  let xis := @simulate_flat DO nb nf ne deviation (fun i => nth i true_init false) (dm_of T) (dm_of P) (dm_of K)
+               (dm_of X) (dm_of J) (dm_of Ru) (dm_of init_xi) (map dm_of us) (map dm_of vs) in
+  let ys := @simulate_measurement DO nb ny nw deviation (dm_of Z) (dm_of H) (dm_of D) xis (map dm_of ws) in
   let bx := Nat.eqb (length xis) (length exp_xi) :: map (fun p => col_close (fst p) (snd p)) (combine xis exp_xi) in
   let by_ := map (fun p => col_close (fst p) (snd p)) (combine ys exp_y) in
   failing_idx (bx ++ by_) 0.
